@@ -22,7 +22,7 @@ var coreHistories = []history{histories[0], histories[1], histories[3], historie
 // explored (cheapest / shallowest first, so a deadline cap cuts the deepest).
 func tierGrids() []gridOpts {
 	full := gridOpts{N: 4, MaxR: 3, MaxSlots: 2, Policies: []string{"OrderedReady", "Parallel"},
-		Strategies: []gen.Strategy{gen.RU(0), gen.RU(1), gen.RU(2), gen.RU(4), gen.RU(7), gen.OnDelete()}, Histories: histories, DMin: 0, DMax: 1, Limit: 10}
+		Strategies: []gen.Strategy{gen.RU(0), gen.RU(1), gen.RU(2), gen.RU(4), gen.RU(7), gen.OnDelete(), gen.OnDeleteWithBlock(1)}, Histories: histories, DMin: 0, DMax: 1, Limit: 10}
 	if explore.Tier() != "thorough" {
 		deep := full
 		deep.MaxSlots, deep.DMin, deep.DMax = 1, 2, 2
